@@ -422,6 +422,8 @@ type walkOpts struct {
 	deferBarrier func(d *ssa.Defer) bool       // a deferred call that acts as barrier when RunDefers executes
 	cutEdge      func(from *ssa.BasicBlock, succIdx int) bool
 	includePanic bool // report panics as exits too
+	seeDefers    bool // hand Defer instructions to barrier() as well (registration point)
+	onExit       func(exit ssa.Instruction, pred *ssa.BasicBlock) // called for every (exit, predecessor block) pair reached
 }
 
 type exitPoint struct {
@@ -439,10 +441,20 @@ func walkFrom(fn *ssa.Function, from ssa.Instruction, o walkOpts) []ssa.Instruct
 	// deferred barriers registered before `from` on every path (dominating) count from the start
 	startDeferred := false
 	var run func(b *ssa.BasicBlock, idx int, deferred bool)
+	var curPred *ssa.BasicBlock
+	type sp struct {
+		s state
+		p *ssa.BasicBlock
+	}
+	seenP := map[sp]bool{}
 	run = func(b *ssa.BasicBlock, idx int, deferred bool) {
+		myPred := curPred
 		for i := idx; i < len(b.Instrs); i++ {
 			in := b.Instrs[i]
 			if d, ok := in.(*ssa.Defer); ok {
+				if o.seeDefers && o.barrier != nil && o.barrier(in) {
+					return
+				}
 				if o.deferBarrier != nil && o.deferBarrier(d) {
 					deferred = true
 				}
@@ -459,6 +471,9 @@ func walkFrom(fn *ssa.Function, from ssa.Instruction, o walkOpts) []ssa.Instruct
 			}
 			switch in.(type) {
 			case *ssa.Return:
+				if o.onExit != nil {
+					o.onExit(in, myPred)
+				}
 				if !seenExit[in] {
 					seenExit[in] = true
 					exits = append(exits, in)
@@ -477,10 +492,20 @@ func walkFrom(fn *ssa.Function, from ssa.Instruction, o walkOpts) []ssa.Instruct
 				continue
 			}
 			st := state{s, deferred}
-			if seen[st] {
-				continue
+			if o.onExit != nil {
+				// predecessor-sensitive: revisit a block when entered from a new predecessor
+				k2 := sp{st, b}
+				if seenP[k2] {
+					continue
+				}
+				seenP[k2] = true
+			} else {
+				if seen[st] {
+					continue
+				}
+				seen[st] = true
 			}
-			seen[st] = true
+			curPred = b
 			run(s, 0, deferred)
 		}
 	}
